@@ -239,6 +239,8 @@ const smtPreamble = `(declare-sort Str 0)
 (declare-fun str_upper (Str) Str)
 (declare-fun str_lower (Str) Str)
 (declare-fun str_contains (Str Str) Bool)
+(declare-fun str_sub (Str Int Int) Str)
+(declare-fun str_at (Str Int) Int)
 (declare-fun bytes_str ((Array Int Int) Int) Str)
 (declare-fun str_bytes (Str) (Array Int Int))
 (declare-fun zeroarr_Str () (Array Int Str))
@@ -253,10 +255,11 @@ type condAxiom struct {
 }
 
 var condAxioms = []condAxiom{
+	{"str_sub", "(assert (forall ((s Str) (a Int) (b Int)) (! (=> (and (<= 0 a) (<= a b) (<= b (str_len s))) (= (str_len (str_sub s a b)) (- b a))) :pattern ((str_sub s a b)))))\n(assert (forall ((s Str)) (! (= (str_sub s 0 (str_len s)) s) :pattern ((str_sub s 0 (str_len s))))))\n(assert (= (str_len str_empty) 0))\n(assert (forall ((s Str)) (! (>= (str_len s) 0) :pattern ((str_len s)))))\n(assert (forall ((s Str)) (! (=> (= (str_len s) 0) (= s str_empty)) :pattern ((str_len s)))))\n"},
 	{"zeroarr_Str", "(assert (forall ((i Int)) (! (= (select zeroarr_Str i) str_empty) :pattern ((select zeroarr_Str i)))))\n"},
 	{"str_len", "(assert (= (str_len str_empty) 0))\n(assert (forall ((s Str)) (! (>= (str_len s) 0) :pattern ((str_len s)))))\n(assert (forall ((s Str)) (! (=> (= (str_len s) 0) (= s str_empty)) :pattern ((str_len s)))))\n"},
 	{"bytes_str", "(assert (forall ((a (Array Int Int)) (n Int)) (! (=> (>= n 0) (= (str_len (bytes_str a n)) n)) :pattern ((bytes_str a n)))))\n(assert (= (str_len str_empty) 0))\n(assert (forall ((s Str)) (! (>= (str_len s) 0) :pattern ((str_len s)))))\n"},
-	{"str_lt", "(assert (forall ((a Str)) (not (str_lt a a))))\n(assert (forall ((a Str) (b Str) (c Str)) (=> (and (str_lt a b) (str_lt b c)) (str_lt a c))))\n(assert (forall ((a Str) (b Str)) (or (str_lt a b) (= a b) (str_lt b a))))\n"},
+	{"str_lt", "(assert (forall ((a Str)) (not (str_lt a a))))\n(assert (forall ((a Str) (b Str) (c Str)) (=> (and (str_lt a b) (str_lt b c)) (str_lt a c))))\n(assert (forall ((a Str) (b Str)) (or (str_lt a b) (= a b) (str_lt b a))))\n(assert (forall ((a Str)) (not (str_lt a str_empty))))\n"},
 }
 
 func (c *Ctx) render(upto int, goal string, extraPre string, wantModel bool, modelTerms []string) string {
